@@ -258,6 +258,59 @@ def _chunks(lst, n):
         yield lst[i:i + n]
 
 
+COPIED_SRC = """
+def copied_undefined_problems(which):
+    # an Undefined that went through copy.deepcopy / pickle (e.g. a deep-copied assignment) is still Undefined
+    import copy, pickle, itertools
+    from cirbo.core.circuit.operators import Undefined
+    from vlib import circgen
+    copies = [copy.deepcopy(Undefined), pickle.loads(pickle.dumps(Undefined))]
+    bad = []
+    if which == 'operators':
+        for t in circgen.ALL_TYPES:
+            ars = [0] if t in circgen.CONST else [1] if t in circgen.UNARY else [2] if t in circgen.BINARY_ONLY else [2, 3, 4]
+            for k in ars:
+                for vals in itertools.product((False, True, None), repeat=k):
+                    a = [Undefined if v is None else v for v in vals]
+                    ra = t.operator(*a)
+                    for U in copies:
+                        rb = t.operator(*[U if v is None else v for v in vals])
+                        if not ((ra == Undefined and rb == Undefined) or (ra is rb)):
+                            bad.append((t.name, vals, str(ra), str(rb)))
+        return bad[:5]
+    for name, c in circgen.feature_circuits():
+        if name != which:
+            continue
+        for vals in itertools.product((False, True, None), repeat=min(len(c.inputs), 4)):
+            vals = list(vals) + [None] * (len(c.inputs) - len(vals))
+            A = {l: (Undefined if v is None else v) for l, v in zip(c.inputs, vals)}
+            for U in copies:
+                B = copy.deepcopy(A) if U is copies[0] else pickle.loads(pickle.dumps(A))
+                for entry in ('evaluate_full_circuit', 'evaluate_circuit', 'evaluate_circuit_outputs'):
+                    fa, fb = getattr(c, entry)(dict(A)), getattr(c, entry)(dict(B))
+                    for k in fa:
+                        if not ((fa[k] == Undefined and fb.get(k) == Undefined) or (fa[k] is fb.get(k))):
+                            bad.append((entry, k, vals))
+                            break
+                if bad:
+                    return bad[:3]
+    return bad
+"""
+exec(COPIED_SRC)  # noqa: S102
+
+
+def copied_undefined_unit(p, item, tier, seed):
+    p.case(("copied-undefined", item), sample=f"copied Undefined objects through {item}" if len(p.samples) < 2 else None)
+    try:
+        bad = copied_undefined_problems(item)  # noqa: F821
+    except Exception as e:  # noqa: BLE001
+        bad = [f"raised {type(e).__name__}: {e}"]
+    p.queries["sat" if bad else "unsat"] += 1
+    if bad:
+        p.violation(f"partial:copied-undefined:{'operator' if item == 'operators' else 'circuit'}", f"an Undefined that is a copy of the constant is treated differently: {bad[:3]}",
+                    REPLAY_PRELUDE + COPIED_SRC + f"\nbad=copied_undefined_problems({item!r})\nprint(bad); sys.exit(1 if bad else 0)\n")
+
+
 def run(rep, tier, seed, only=None):
     symeval.install()
     thorough = tier == "thorough"
@@ -279,6 +332,8 @@ def run(rep, tier, seed, only=None):
         rep.pmap(operator_lemma, items, chunksize=2)
     if sub("feature"):
         rep.pmap(concrete, [("feature", None)])
+    if sub("copied"):
+        rep.pmap(copied_undefined_unit, ["operators"] + [n for n, _ in circgen.feature_circuits() if n in ("lnot_riff_chain", "not_chain_into_symmetric", "shared_fanout", "long_buffer_chain", "deepcopied_mixed_types")])
     if sub("seeded"):
         rep.pmap(concrete, [("seeded", (seed * 977 + s, 40 if thorough else 10, 10, 5)) for s in range(32 if thorough else 16)])
     if sub("history"):
